@@ -23,6 +23,9 @@ class PathCapExceeded(Exception):
     pass
 
 
+NAN_TAGS = ("neg of -inf", "inf + -inf", "0 * -inf")
+
+
 class Stats:
     def __init__(self):
         self.queries = 0
@@ -60,8 +63,13 @@ class Ctx:
     def hyps(self, with_defined=True):
         h = list(self.assume) + list(self.pc) + list(self.axioms.values())
         if with_defined:
-            h += [c for c, _ in self.defined]
+            h += [c for c, t in self.defined if t not in NAN_TAGS]
         return h
+
+    def must_prove(self):
+        """definedness conditions whose failure means a NaN produced INSIDE the carrier (-inf - -inf, 0 * -inf):
+        they are proved together with the goal, never assumed"""
+        return [c for c, t in self.defined if t in NAN_TAGS]
 
 
 CUR = Ctx()
